@@ -10,7 +10,7 @@ Open Scope N_scope.
    finds in the input payload *)
 Theorem C04_moov_identical_outside_tables : forall (p : bytes) (kids : list node) (rs : list region) (d : Z)
                                                    (kids' : list node) (u : list unit),
-  moov_check p = Ok kids -> co_regions p = Some rs -> (- 2 ^ 31 < d < 2 ^ 31)%Z ->
+  moov_check p = Ok kids -> co_regions p = Some rs -> (- 2 ^ 31 <= d < 2 ^ 31)%Z ->
   each_trak kids (shift_table (shift_entry 32 d) (shift_entry 64 d)) = Ok (kids', u) ->
   put_nodes kids = p /\ blen (put_nodes kids') = blen p /\ masked_eq rs p (put_nodes kids') = true.
 Proof. exact moov_identical_outside_tables. Qed.
